@@ -61,6 +61,12 @@ def _windowed(seq, n, fillvalue=None, step=1):
     return [tuple(seq[i:i + n]) for i in range(0, len(seq) - n + 1, step)]
 
 
+def _groupby(iterable, key=None):
+    return [(k, list(g)) for k, g in itertools.groupby(list(iterable), key)]      # runs of CONSECUTIVE equal keys, groups materialised
+
+
+import operator as _operator
+PURE_FUNCS.update({'itertools.groupby': _groupby, 'groupby': _groupby, 'operator.itemgetter': _operator.itemgetter, 'itemgetter': _operator.itemgetter})
 PURE_FUNCS.update({'windowed': _windowed, 'more_itertools.windowed': _windowed, 'np.searchsorted': _searchsorted, 'numpy.searchsorted': _searchsorted})
 PURE_FUNCS = {k: v for k, v in PURE_FUNCS.items() if v is not None}
 
